@@ -52,3 +52,9 @@ _c("C20",
    "copy.deepcopy = fresh cell with equal content (trusted); the ast->Lean translator (validated each run: the regenerated schedule is executed by the driver and its trace compared with the real class); "
    "concrete operator classes are the quantified parameter.",
    technique="Lean 4 proof (invariant over a heap semantics) about a schedule regenerated from the source by a translator + trace correspondence with the real class")
+_c("C01",
+   "17 theorems (Props/C01.lean) about an executable model of mat_meiosis/mat_mate/mat_dh and the seven mate() methods, for all sizes, selfing depths, counters and draws: the literal segment-copy loop equals "
+   "the parity mosaic; the source copy switches only where xoprob > 0; every progeny copy is a mosaic of exactly the haplotypes the cross configuration assigns to that side (and the pedigree of intermediate hybrids exists); "
+   "DH progeny homozygous; count = sum nmating*nprogeny; family labels, names, counters; the Spec oracle (a reachability DP) is proved to decide the mosaic predicate and to accept every model output.",
+   "numpy repeat/lexsort/unique as modelled (differentially tested each run); generator contract 0 <= u; marker metadata and parents-untouched are pass-through checked by snapshots. "
+   "Partial: order_preserved_partial (generation order needs progeny_counter+count <= 10^7 because group_taxa sorts names lexicographically; counterexample proved).")
